@@ -49,7 +49,7 @@ CONSTANTS N0,        \* length of the initial vector
           Cols,      \* > 0: the vector is the row-major storage of a matrix with Cols columns (views: "vwalk")
           ViewDepth, \* views are words of at most ViewDepth Slice / T steps (SparseMatrixView.tla)
           ViewT,     \* ... with at most ViewT transpositions
-          BMode,     \* operand matrices of whole-view operations: 0 = constant matrices, 1 = all of WSeqs
+          BMode,     \* operand matrices of whole-view operations: 0 = constant matrices, 1 = all of WSeqs, 2 = all ones
           SwapBug, StaleBug, SliceBug
 
 Val == {-1, 0, 1}
@@ -344,7 +344,7 @@ Arith(name, o, wseq, x) ==
                                 !.d = IF name \in VecOps
                                       THEN SeqOf(KnownDeviation_DenseOperandStop(name, content[o], FunOf(wseq), n[o]), n[o])
                                       ELSE <<>>])
-BSeqs(m) == IF BMode = 0 THEN {[t \in 1..m |-> v] : v \in Val} ELSE {w \in [1..m -> Val] : Cardinality({t \in 1..m : w[t] # 0}) <= WMax}
+BSeqs(m) == IF BMode = 2 THEN {[t \in 1..m |-> 1]} ELSE IF BMode = 0 THEN {[t \in 1..m |-> v] : v \in Val} ELSE {w \in [1..m -> Val] : Cardinality({t \in 1..m : w[t] # 0}) <= WMax}
 WSeqs(m) == {w \in [1..m -> Val] : Cardinality({t \in 1..m : w[t] # 0}) <= WMax}
 
 (* it := v.ConstIterator() / v.Iterator() / v.ConstIteratorFrom(i) *)
